@@ -216,7 +216,23 @@ pub fn gen_work(ch: &mut Chooser, kind: Kind, tier: Tier) -> Work {
         Kind::D2 => {
             // a rare large image: several root tiles of the default list,
             // sizes beyond 128 and 256 ("all image sizes")
-            if ch.odds("large_image", 1, 50) {
+            if ch.odds("long_axis", 1, 60) {
+                // a long thin image: one side 330..=700, the other 1..=24
+                let long = 330 + ch.choose("long_len", 371);
+                let short = 1 + ch.choose("short_len", 24);
+                let (w, h) = if ch.flag("long_is_w") {
+                    (long, short)
+                } else {
+                    (short, long)
+                };
+                let tiles = match ch.choose("tiles_large", 4) {
+                    0 => None,
+                    1 => Some(vec![64, 16, 4]),
+                    2 => Some(vec![128, 32, 8]),
+                    _ => Some(vec![32, 8, 2]),
+                };
+                (w, h, 0, tiles, 0)
+            } else if ch.odds("large_image", 1, 50) {
                 let w = 100 + ch.choose("w_large", 221);
                 let h = if ch.odds("square", 1, 4) {
                     w
@@ -247,7 +263,25 @@ pub fn gen_work(ch: &mut Chooser, kind: Kind, tier: Tier) -> Work {
             }
         }
         Kind::D3 => {
-            if ch.odds("large_image", 1, 150) {
+            if ch.odds("long_axis", 1, 60) {
+                // one long axis, the other two short: sizes beyond 128 and
+                // 256 along any one axis at the cost of a small grid
+                let long = 150 + ch.choose("long_len", 181);
+                let a = 1 + ch.choose("short_a", 12);
+                let b = 1 + ch.choose("short_b", 12);
+                let (w, h, d) = match ch.choose("long_which", 3) {
+                    0 => (long, a, b),
+                    1 => (a, long, b),
+                    _ => (a, b, long),
+                };
+                let tiles = match ch.choose("tiles_large", 4) {
+                    0 => None,
+                    1 => Some(vec![64, 16, 8]),
+                    2 => Some(vec![32, 8]),
+                    _ => Some(vec![24, 12, 4]),
+                };
+                (w, h, d, tiles, 0)
+            } else if ch.odds("large_image", 1, 150) {
                 // rare large grid: several root tiles of the default list
                 let w = 50 + ch.choose("w_large", 91);
                 let h = 50 + ch.choose("h_large", 91);
